@@ -34,6 +34,7 @@ FIELD_TYPES = {
     ('pjrpc.common.v20:BatchRequest', '_strict'): 'bool',
     ('pjrpc.common.v20:BatchResponse', '_responses'): 'list[=pjrpc.common.v20:Response]',
     ('pjrpc.common.v20:BatchRequest', '_requests'): 'list[=pjrpc.common.v20:Request]',
+    ('pjrpc.server.dispatcher:AsyncDispatcher', '_concurrent_batch'): 'bool',
     ('pjrpc.client.client:BaseAbstractClient', 'id_gen_impl'): '=UserIdGen',
     ('pjrpc.client.retry:RetryStrategy', 'backoff'): 'pjrpc.client.retry:Backoff',
     ('pjrpc.client.retry:RetryStrategy', 'codes'): 'opt:=set',
